@@ -9,7 +9,8 @@
      an access that is not inside the root region is undefined behaviour of the real code: the model answers
      `Crash` (the log still receives the range, so "the log stays inside" is the safety statement).
    Definitions only; proofs are in Proofs/BufferProofs.v. *)
-Require Import V.Base.MachineInt V.Generated.GenBounds.
+Require Import V.Base.MachineInt.
+Require Import V.Generated.GenBounds.
 Open Scope Z_scope.
 
 (* ------------------------------------------------------------------ bytes *)
